@@ -33,6 +33,8 @@ enum Case {
     /// re-encoded in a wider form (0xfd / 0xfe / 0xff prefix) with the same value: the transaction still decodes to the same
     /// fields, but its bytes - covered by the txid - have changed, so the merkle root no longer matches
     Widen { height: u64, nth: usize, width: u8 },
+    /// as Flip, on a chain of merged-mined blocks (header, AuxPoW section, transactions) of namecoin / dogecoin
+    AuxFlip { coin: &'static str, height: u64, region: &'static str, which: u8 },
 }
 
 /// Offsets (relative to the block start) of every one-byte CompactSize inside the legacy transactions of a serialised block.
@@ -215,6 +217,15 @@ pub fn run() -> Report {
     for c in COINS.iter() {
         cases.push(Case::WrongGenesis { coin: c.name });
     }
+    for cn in ["namecoin", "dogecoin"] {
+        for h in 1..3u64 {
+            for region in ["prev", "merkle", "tx", "txcount"] {
+                for which in 0..4u8 {
+                    cases.push(Case::AuxFlip { coin: cn, height: h, region, which });
+                }
+            }
+        }
+    }
     // every CompactSize of every transaction of blocks 1..3, re-encoded in each wider form
     {
         let cb = chain_with(coin("bitcoin"), 2, 4);
@@ -236,7 +247,7 @@ pub fn run() -> Report {
             cases.push(Case::Multi { kinds, start: Some(3) });
         }
     }
-    rep.rule = "must pass: genesis,B(k),B(1) for k in 1..17,31,32,33,64,65 (every merkle-tree shape with an odd level up to depth 6) on bitcoin, k in {1,2,3,5} x --start {0,1,2} on all 8 coins, AuxPoW chains, sparse indexes at heights up to 2^40 with --start (pass, and fail with a flipped prev field); must fail at that height: every single-bit flip of prev-hash field, merkle field, transaction count and tx bytes of every block of 4-block chains with 1/2/3 txs per block, prev-field flips of the first processed block under --start, block swaps, wrong block 0 for 8 coins; all 4^4 combinations of {intact, resealed, prev-field rewritten to the stored predecessor's hash, both} over heights 1..4 (x --start) judged by the statement's rule; every CompactSize inside a transaction re-encoded in a wider form with the same value (the txid covers the bytes); (fail at the first processed height whose prev field is not the indexed hash of the preceding height, else pass); non-trivial = distinct case (pass cases: exit 0 with model-equal output; fail cases: corrupted byte inside the processed range)".into();
+    rep.rule = "must pass: genesis,B(k),B(1) for k in 1..17,31,32,33,64,65 (every merkle-tree shape with an odd level up to depth 6) on bitcoin, k in {1,2,3,5} x --start {0,1,2} on all 8 coins, AuxPoW chains, sparse indexes at heights up to 2^40 with --start (pass, and fail with a flipped prev field); must fail at that height: every single-bit flip of prev-hash field, merkle field, transaction count and tx bytes of every block of 4-block chains with 1/2/3 txs per block, prev-field flips of the first processed block under --start, block swaps, wrong block 0 for 8 coins; bit flips in prev / merkle / transaction count / transaction bytes of merged-mined (AuxPoW) blocks of namecoin and dogecoin; all 4^4 combinations of {intact, resealed, prev-field rewritten to the stored predecessor's hash, both} over heights 1..4 (x --start) judged by the statement's rule; every CompactSize inside a transaction re-encoded in a wider form with the same value (the txid covers the bytes); (fail at the first processed height whose prev field is not the indexed hash of the preceding height, else pass); non-trivial = distinct case (pass cases: exit 0 with model-equal output; fail cases: corrupted byte inside the processed range)".into();
     rep.bound = json!({"cases": cases.len(), "flip_chains": "4 blocks x {1,2,3} txs", "flip_density": "every bit", "txs_per_block": if thorough { "1,2,3,4,5,8" } else { "1,2,3" }});
     rep.not_covered = vec!["multi-bit corruptions other than block swaps, re-encodings and the per-block deviation combinations".into(), "witness bytes / marker / flag (not txid-covered; don't-care)".into()];
     let root = refmodel::world::scratch_root();
@@ -441,6 +452,51 @@ pub fn run() -> Report {
                     acc.count("compactsize-re-encoded", 1);
                     if let Some((sig, detail)) = judge_fail(&r, *height) {
                         acc.disagree(&format!("{}:compactsize-re-encoded", sig), format!("{:?}: {}", c, detail), replay_case(&world, &spec, json!({"must": "fail", "height": height}), &r, &wk.dir));
+                    }
+                }
+                Case::AuxFlip { coin: cname, height, region, which } => {
+                    let cn = coin(cname);
+                    let mut cb = ChainBuilder::with_genesis(cn);
+                    cb.version = cn.auxpow_from.unwrap() + 1;
+                    for h in 1..4u64 {
+                        let mut txs = vec![coinbase(h, 3, vec![pay(9, 50 * COIN_VALUE)])];
+                        txs.push(TxP::base().build(h as u8));
+                        txs.push(TxP::base().build(h as u8 + 40));
+                        cb.push_raw(txs);
+                    }
+                    for b in cb.blocks.iter_mut().skip(1) {
+                        b.auxpow = Some(refmodel::ser::AuxPow { parent_coinbase: coinbase(1, 1, vec![pay(1, 1)]), parent_hash: [7; 32], coinbase_branch: vec![[1; 32]; 2], coinbase_mask: 1, chain_branch: vec![[2; 32]], chain_mask: 0, parent_header: cb_header() });
+                    }
+                    let mut world = World::new(cn);
+                    let mut recs: Vec<IndexRec> = Vec::new();
+                    for (i, b) in cb.blocks.iter().enumerate() {
+                        recs.push(world.add_block(i as u64, i as u64, b));
+                    }
+                    let blk = &cb.blocks[*height as usize];
+                    let raw = blk.ser();
+                    let txlen: usize = blk.txs.iter().map(|t| t.ser().len()).sum();
+                    let (lo, hi) = match *region {
+                        "prev" => (4, 36),
+                        "merkle" => (36, 68),
+                        "txcount" => (raw.len() - txlen - 1, raw.len() - txlen),
+                        _ => (raw.len() - txlen, raw.len()),
+                    };
+                    // first / last byte of the region, lowest / highest bit
+                    let (off, bit) = match which { 0 => (lo, 0), 1 => (hi - 1, 7), 2 => (lo + (hi - lo) / 2, 3), _ => (hi - 1, 0) };
+                    let pos = recs[*height as usize].data_pos as usize + off;
+                    let f = world.files.get_mut(height).unwrap();
+                    let mut dense = f.dense();
+                    dense[pos] ^= 1 << bit;
+                    f.chunks = vec![(0, dense)];
+                    let start = if genesis(cn).is_none() { Some(1) } else { None };
+                    let spec = RunSpec::new(cname, "csvdump").verify(true).range(start, None);
+                    let r = match wk.world_run(&world, &spec) {
+                        Ok(r) => r,
+                        Err(m) => return acc.machinery(m),
+                    };
+                    acc.count(&format!("auxpow-flip:{}", region), 1);
+                    if let Some((sig, detail)) = judge_fail(&r, *height) {
+                        acc.disagree(&format!("{}:auxpow-block:{}", sig, region), format!("{:?}: {}", c, detail), replay_case(&world, &spec, json!({"must": "fail", "height": height}), &r, &wk.dir));
                     }
                 }
                 Case::Multi { kinds, start } => {
